@@ -217,6 +217,66 @@ def scram_server_verify(stored_key, auth_message, client_proof, hashname="sha256
 
 
 # ---------------------------------------------------------------------------------------------
+# base64 TEXT of a SCRAM salt (RFC 4648 section 4), written out: the same octets have several spellings
+# ---------------------------------------------------------------------------------------------
+
+B64_ALPHABET = "ABCDEFGHIJKLMNOPQRSTUVWXYZabcdefghijklmnopqrstuvwxyz0123456789+/"
+
+
+def b64_encode_canonical(octets):
+    """RFC 4648 section 4 written out (canonical: no line breaks, zero pad bits, '=' padding)."""
+    out = []
+    for i in range(0, len(octets), 3):
+        chunk = octets[i:i + 3]
+        n = int.from_bytes(chunk + b"\x00" * (3 - len(chunk)), "big")
+        chars = [B64_ALPHABET[(n >> s) & 63] for s in (18, 12, 6, 0)]
+        if len(chunk) < 3:
+            chars[len(chunk) + 1:] = "=" * (3 - len(chunk))
+        out.append("".join(chars))
+    return "".join(out)
+
+
+def b64_decode_lenient(text):
+    """The octets a lenient (RFC 2045 style) decoder reads from a base64 text: characters outside the alphabet
+    (line breaks) are skipped, the unused low bits of the last sextet are ignored, padding must complete the
+    last quantum.  Returns None when the text is not decodable that way."""
+    sextets, pad = [], 0
+    for ch in text:
+        if ch == "=":
+            pad += 1
+        elif ch in B64_ALPHABET:
+            if pad:
+                return None
+            sextets.append(B64_ALPHABET.index(ch))
+    rem = len(sextets) % 4
+    if rem == 1 or pad != (4 - rem) % 4:
+        return None
+    bits = 0
+    for s in sextets:
+        bits = (bits << 6) | s
+    nbits = 6 * len(sextets)
+    drop = nbits % 8
+    return (bits >> drop).to_bytes((nbits - drop) // 8, "big")
+
+
+def b64_unused_bits(text):
+    """(index of the last alphabet character of ``text``, number of its low bits that carry no data) - 0, 2 or 4."""
+    idx = [i for i, ch in enumerate(text) if ch in B64_ALPHABET]
+    if not idx:
+        return None, 0
+    return idx[-1], (6 * len(idx)) % 8
+
+
+def scram_salted_password_octets(kdf, password, salt_octets, iterations, memory=None):
+    """SaltedPassword from the salt OCTETS (no base64 decoder involved; see scram_salted_password)."""
+    if kdf == "pbkdf2":
+        return pbkdf2(password, salt_octets, iterations, 32, "sha256")
+    if kdf == "argon2id-13":
+        return argon2_b64(argon2id_raw(password, salt_octets, iterations, memory, 32))
+    raise RefError("unknown kdf %r" % (kdf,))
+
+
+# ---------------------------------------------------------------------------------------------
 # Ed25519 / WAMP-cryptosign
 # ---------------------------------------------------------------------------------------------
 
@@ -412,6 +472,19 @@ def selfcheck():
     n += 1
     # xor
     _expect("xor", xor(b"\x0f\xf0\xaa", b"\xff\xff\x55"), b"\xf0\x0f\xff")
+    n += 1
+    # base64 text (RFC 4648 section 10 vectors; spellings of the same octets)
+    for raw, want in [(b"", ""), (b"f", "Zg=="), (b"fo", "Zm8="), (b"foo", "Zm9v"), (b"foob", "Zm9vYg=="),
+                      (b"fooba", "Zm9vYmE="), (b"foobar", "Zm9vYmFy")]:
+        _expect("RFC4648 encode", b64_encode_canonical(raw), want)
+        _expect("RFC4648 decode", b64_decode_lenient(want), raw)
+        n += 1
+    for text, want in [("Zh==", b"f"), ("Zm9=", b"fo"), ("Zm9v\nYg==\n", b"foob"), ("Zm9vYg==\r\n", b"foob"), ("Zm9vYg=", None),
+                       ("Zm9vY", None), ("Zg==Zg==", None)]:
+        _expect("base64 spelling %r" % text, b64_decode_lenient(text), want)
+    _expect("base64 unused bits", [b64_unused_bits(t) for t in ("Zg==", "Zm8=\n", "Zm9v")], [(1, 4), (2, 2), (3, 0)])
+    _expect("scram_salted_password_octets", scram_salted_password_octets("pbkdf2", b"pencil", base64.b64decode(RFC7677["salt"]), 4096),
+            scram_salted_password("pbkdf2", b"pencil", RFC7677["salt"], 4096))
     n += 1
     return n
 
